@@ -1746,9 +1746,16 @@ Box<ITV>::wrap_assign(const Variables_Set& vars,
     integer_quadrant_itv.build(lower, upper);
     // The rational quadrant is only needed if overflow is undefined.
     if (o == OVERFLOW_UNDEFINED) {
-      ++max_value;
-      upper = i_constraint(LESS_THAN, max_value);
-      rational_quadrant_itv.build(lower, upper);
+      if (ITV::info_type::store_open) {
+        ++max_value;
+        upper = i_constraint(LESS_THAN, max_value);
+        rational_quadrant_itv.build(lower, upper);
+      }
+      else {
+        // Open bounds cannot be represented: `x < max_value + 1' would be
+        // approximated by `x <= max_value + 1', which is out of range.
+        rational_quadrant_itv.build(lower, upper);
+      }
     }
   }
 
